@@ -17,6 +17,8 @@ def has_report(out):
 # 1. incomplete audits never look clean: a KEXINIT whose payload is cut short (correct framing) gives no algorithm report and status 1,
 #    in text and JSON; the complete message gives a report and a status that is 0 only if the report shows no warning or failure
 ARCHS = {'clean': (['sntrup761x25519-sha512@openssh.com'], ['ssh-ed25519'], ['aes256-gcm@openssh.com'], ['hmac-sha2-512-etm@openssh.com']),
+         # the only finding is the context-dependent Terrapin warning (no strict-kex marker)
+         'terrapin-only': (['sntrup761x25519-sha512@openssh.com'], ['ssh-ed25519'], ['chacha20-poly1305@openssh.com'], ['hmac-sha2-512-etm@openssh.com']),
          'legacy': (['diffie-hellman-group1-sha1'], ['ssh-dss'], ['3des-cbc'], ['hmac-md5'])}
 for name, (kx, ky, en, mc) in ARCHS.items():
     payload = F.kexinit(kx, ky, en, mc)
@@ -35,6 +37,12 @@ for name, (kx, ky, en, mc) in ARCHS.items():
                     fail(inp, {'status': st}, 'a report with status 0/2/3', 'complete-message')
                 if not js and st == 0 and ('[fail]' in out or '[warn]' in out):
                     fail(inp, {'status': st}, 'non-zero status when the report shows a warning or failure', 'clean-status-with-findings')
+                if js:
+                    doc = json.loads(out)
+                    lv = set(l for c in ('kex', 'key', 'enc', 'mac') for e in doc[c] for l, v in e['notes'].items() if v)
+                    want = 3 if 'fail' in lv else (2 if 'warn' in lv else 0)
+                    if st != want:
+                        fail(inp, {'status': st, 'levels in the JSON report': sorted(lv)}, {'status': want}, 'json-status-vs-findings')
 # 2. a multi-target run exits with the highest-ranked status among its targets (ranking: 0 < 2 < 3 < 1 < internal error), in every order
 RANK = [exitcodes.GOOD, exitcodes.WARNING, exitcodes.FAILURE, exitcodes.CONNECTION_ERROR, exitcodes.UNKNOWN_ERROR]
 def mk(kind):
